@@ -179,6 +179,19 @@ func checkC01(c *Ctx) {
 		maxN = 5
 	}
 	jobs := c.c01Jobs(maxN)
+	// random lexical grammars (sampling on the grammar axis, symbolic bytes/runes)
+	nRand, randN := 2, 2
+	if !c.Quick() {
+		nRand, randN = 10, 3
+	}
+	saved := LexSpecs
+	LexSpecs = RandomLexSpecs(int64(c.Seed), nRand)
+	for _, l := range LexSpecs {
+		c.Notes = append(c.Notes, "random lexical grammar "+l.Name+": "+oneLine(l.BNF()))
+	}
+	jobs = append(jobs, c.c01Jobs(randN)...)
+	LexSpecs = saved
+	c.BoundsText = append(c.BoundsText, fmt.Sprintf("plus %d random lexical grammars (VERIF_SEED=%d; no regular definitions, no pattern matching the empty string): DFA table simulation and Scan runs up to %d bytes", nRand, c.Seed, randN))
 	c.BoundsText = append(c.BoundsText, "DFA table simulation (unbounded lexeme length): for every pair of the relation between generated DFA states and sets of reference NFA states and a SYMBOLIC rune, TransTab and the NFA step agree and ActTab is what the priority rule says for the set; the bounded Scan runs then only have to establish the Scan loop around the tables")
 	c.BoundsText = append(c.BoundsText, fmt.Sprintf("%d corpus lexical grammars through the current gocc; generated Scan versus a reference lexer over /verif's own Thompson NFA (regular definitions inlined, '.' only where no explicit alternative of a live item matches, priority: syntax literal, then declaration order); one Scan from every reachable offset, sources of 0..%d arbitrary bytes; compared: token NAME (through the generated TokMap), start offset, lexeme length, lexer offset afterwards", len(LexSpecs), maxN),
 		"outside the claim: patterns that match the empty string; recursive regular definitions; grammars outside the corpus; longer inputs")
